@@ -49,7 +49,7 @@ class FnTarget(_AbstractDistribution):
         if getattr(self, "box", None) is not None:      # a bounded target: zero probability outside its box
             a = numpy.asarray(m, dtype=float).flatten()
             if any(a[i] < self.box[0][i] or a[i] > self.box[1][i] for i in range(self.dimensions)):
-                return INF
+                return getattr(self, "outside_value", INF)     # +inf, or NaN for a target that is simply undefined there (an unguarded log)
         if self.script is not None:
             key = _h(0, "key", m)
             if key not in self._scripted and len(self._scripted) < len(self.script):
